@@ -310,14 +310,117 @@ theorem mem_setAt {α : Type} (l : List α) (i : Nat) (y x : α) (h : x ∈ setA
         · left; simp [h]
         · right; exact h
 
-/-- the ledger invariant: every gauge is within its schedule, and the module account covers the sum of all
-undistributed remainders (as a signed sum over gauges and external programmes) -/
-def LInv (l : Ledger) : Prop :=
-  (∀ g ∈ l.gauges, GInv g) ∧ remGauges l.gauges + remExts l.exts ≤ l.bal
+theorem remSfs_append (gs : List SfGauge) (g : SfGauge) : remSfs (gs ++ [g]) = remSfs gs + g.deposit := by
+  induction gs with
+  | nil => simp [remSfs]
+  | cons x xs ih => simp only [List.cons_append, remSfs, ih]; omega
 
-theorem stepB_inv (l l' : Ledger) (o : BOp) (h : stepB l o = .ok l') (hl : LInv l) : LInv l' := by
+theorem remSfs_nonneg (gs : List SfGauge) (h : ∀ g ∈ gs, 0 ≤ g.deposit) : 0 ≤ remSfs gs := by
+  induction gs with
+  | nil => simp [remSfs]
+  | cons x xs ih =>
+    have := ih (fun g hg => h g (by simp [hg]))
+    have := h x (by simp)
+    simp only [remSfs]; omega
+
+theorem remSfs_setAt (gs : List SfGauge) (i : Nat) (g g0 : SfGauge) (h : gs[i]? = some g0) :
+    remSfs (setAt gs i g) = remSfs gs - g0.deposit + g.deposit := by
+  induction gs generalizing i with
+  | nil => simp at h
+  | cons x xs ih =>
+    cases i with
+    | zero => simp at h; subst h; simp only [setAt, remSfs]; omega
+    | succ i => simp at h; simp only [setAt, remSfs, ih i h]; omega
+
+/-- what one swap-fee trigger does, as cases -/
+theorem sfTrigger_cases (g g' : SfGauge) (d : DistData) (x : Xfer) (sends : List Int) (recv : Int)
+    (h : sfTrigger g d x = .ok (g', sends, recv)) :
+    (∀ r ∈ sends, 0 ≤ r) ∧ 0 ≤ recv ∧ (0 < g.deposit → sumL sends ≤ g.deposit) ∧ (g.deposit ≤ 0 → sends = []) ∧
+    ((g' = g ∧ recv = 0 ∧ (sends = [] ∨ x = .err)) ∨
+     (∃ amt : Nat, x = .ok amt ∧ recv = amt ∧ g'.deposit = g.deposit - sumL sends + amt ∧
+        g'.distributed = g.distributed + sumL sends ∧ g'.triggered = g.triggered + 1)) := by
+  unfold sfTrigger at h
+  by_cases hd : g.deposit > 0
+  · simp only [hd, if_true] at h
+    cases d with
+    | err =>
+      simp only at h
+      injection h with h; injection h with h1 h2; injection h2 with h2 h3
+      subst h1 h2 h3
+      exact ⟨by simp, Int.le_refl 0, by intro _; simp [sumL]; omega, by intro; rfl, Or.inl ⟨rfl, rfl, Or.inl rfl⟩⟩
+    | ok rs =>
+      simp only at h
+      by_cases hn : anyNeg rs = true
+      · simp [hn] at h
+      · have hn' : anyNeg rs = false := by simpa using hn
+        simp only [hn', Bool.false_eq_true, if_false] at h
+        by_cases hs : sumL rs > g.deposit
+        · simp only [hs, if_true] at h
+          injection h with h; injection h with h1 h2; injection h2 with h2 h3
+          subst h1 h2 h3
+          exact ⟨by simp, Int.le_refl 0, by intro _; simp [sumL]; omega, by intro; rfl, Or.inl ⟨rfl, rfl, Or.inl rfl⟩⟩
+        · simp only [hs, if_false] at h
+          have hnn := all_nonneg_of_not_anyNeg rs hn'
+          cases x with
+          | err =>
+            simp only at h
+            injection h with h; injection h with h1 h2; injection h2 with h2 h3
+            subst h1 h2 h3
+            exact ⟨hnn, Int.le_refl 0, by intro _; omega, by intro; omega, Or.inl ⟨rfl, rfl, Or.inr rfl⟩⟩
+          | ok amt =>
+            simp only at h
+            injection h with h; injection h with h1 h2; injection h2 with h2 h3
+            subst h1 h2 h3
+            refine ⟨hnn, Int.natCast_nonneg _, by intro _; omega, by intro; omega, Or.inr ⟨amt, rfl, rfl, ?_, ?_, ?_⟩⟩ <;> simp
+  · simp only [hd, if_false] at h
+    cases x with
+    | err =>
+      simp only at h
+      injection h with h; injection h with h1 h2; injection h2 with h2 h3
+      subst h1 h2 h3
+      exact ⟨by simp, Int.le_refl 0, by intro; omega, by intro; rfl, Or.inl ⟨rfl, rfl, Or.inl rfl⟩⟩
+    | ok amt =>
+      simp only at h
+      injection h with h; injection h with h1 h2; injection h2 with h2 h3
+      subst h1 h2 h3
+      refine ⟨by simp, Int.natCast_nonneg _, by intro; omega, by intro; rfl, Or.inr ⟨amt, rfl, rfl, ?_, ?_, ?_⟩⟩ <;> simp [sumL]
+
+/-- the ledger invariant: every gauge is within its schedule, and the module account covers the sum of all
+undistributed remainders (as a signed sum over gauges, swap-fee gauges and external programmes) -/
+def LInv (l : Ledger) : Prop :=
+  (∀ g ∈ l.gauges, GInv g) ∧ remGauges l.gauges + remExts l.exts + remSfs l.sfs ≤ l.bal
+
+theorem sfLeak_false (g g' : SfGauge) (d : DistData) (sends : List Int) (recv : Int)
+    (h : sfTrigger g d .err = .ok (g', sends, recv)) (hk : sfLeak g d .err = false) : sumL sends = 0 := by
+  unfold sfLeak at hk
+  rw [h] at hk
+  simpa using hk
+
+theorem stepB_inv (l l' : Ledger) (o : BOp) (h : stepB l o = .ok l') (hl : LInv l) (hk : bopLeaks l o = false) : LInv l' := by
   obtain ⟨hg, hb⟩ := hl
   cases o with
+  | sfTrigger i d x =>
+    simp only [stepB] at h
+    split at h
+    · injection h with h; subst h; exact ⟨hg, hb⟩
+    · rename_i g hgi
+      split at h
+      · cases h
+      · rename_i g' sends recv ht
+        injection h with h; subst h
+        refine ⟨hg, ?_⟩
+        simp only
+        rw [remSfs_setAt _ _ _ _ hgi]
+        obtain ⟨hnn, hr0, _, _, hc⟩ := sfTrigger_cases g g' d x sends recv ht
+        have hsb := (sendAll_bounds sends hnn l.bal).1
+        rcases hc with ⟨rfl, rfl, hs⟩ | ⟨amt, _, rfl, hd, _, _⟩
+        · rcases hs with rfl | rfl
+          · simp only [sendAll, sumL] at *; omega
+          · have hk' : sfLeak g' d .err = false := by
+              simp only [bopLeaks, hgi] at hk; exact hk
+            have := sfLeak_false g' g' d sends 0 ht hk'
+            omega
+        · omega
   | trigger i now d =>
     simp only [stepB] at h
     split at h
@@ -363,7 +466,7 @@ theorem stepB_inv (l l' : Ledger) (o : BOp) (h : stepB l o = .ok l') (hl : LInv 
       simp only
       rw [remExts_setAt _ _ _ _ hx]; simp only; omega
 
-theorem runB_inv (l l' : Ledger) (os : List BOp) (h : runB l os = .ok l') (hl : LInv l) : LInv l' := by
+theorem runB_inv (l l' : Ledger) (os : List BOp) (h : runB l os = .ok l') (hl : LInv l) (hk : noLeakB l os = true) : LInv l' := by
   induction os generalizing l with
   | nil => simp only [runB] at h; injection h with h; subst h; exact hl
   | cons o os ih =>
@@ -371,11 +474,16 @@ theorem runB_inv (l l' : Ledger) (os : List BOp) (h : runB l os = .ok l') (hl : 
     split at h
     · cases h
     · rename_i l1 h1
-      exact ih l1 h (stepB_inv l l1 o h1 hl)
+      simp only [noLeakB, h1, Bool.and_eq_true, Bool.not_eq_true'] at hk
+      exact ih l1 h (stepB_inv l l1 o h1 hl hk.1) hk.2
 
-theorem step_inv (l : Ledger) (o : Op) (hl : LInv l) : LInv (step l o) := by
+theorem step_inv (l : Ledger) (o : Op) (hl : LInv l)
+    (hk : (match o with | .block ops => noLeakB l ops | _ => true) = true) : LInv (step l o) := by
   obtain ⟨hg, hb⟩ := hl
   cases o with
+  | createSf =>
+    simp only [step]
+    exact ⟨hg, by simp only [remSfs_append]; omega⟩
   | createGauge deposit total start now dur minDur aux funds =>
     simp only [step]
     split
@@ -403,13 +511,15 @@ theorem step_inv (l : Ledger) (o : Op) (hl : LInv l) : LInv (step l o) := by
   | block ops =>
     simp only [step]
     split
-    · rename_i l' h; exact runB_inv l l' ops h ⟨hg, hb⟩
+    · rename_i l' h; exact runB_inv l l' ops h ⟨hg, hb⟩ hk
     · exact ⟨hg, hb⟩
 
-theorem run_inv (l : Ledger) (ops : List Op) (hl : LInv l) : LInv (run l ops) := by
+theorem run_inv (l : Ledger) (ops : List Op) (hl : LInv l) (hk : noLeak l ops = true) : LInv (run l ops) := by
   induction ops generalizing l with
   | nil => exact hl
-  | cons o os ih => exact ih (step l o) (step_inv l o hl)
+  | cons o os ih =>
+    simp only [noLeak, Bool.and_eq_true] at hk
+    exact ih (step l o) (step_inv l o hl hk.1) hk.2
 
 /-- every gauge a user managed to create has at least one epoch and a deposit of at least one unit per epoch -/
 def AccInv (l : Ledger) : Prop := ∀ g ∈ l.gauges, 1 ≤ g.total ∧ (g.total : Int) ≤ g.deposit
@@ -439,6 +549,13 @@ theorem stepB_acc (l l' : Ledger) (o : BOp) (h : stepB l o = .ok l') (hl : AccIn
   | extDeactivate j =>
     simp only [stepB] at h
     split at h <;> (injection h with h; subst h; exact hl)
+  | sfTrigger i d x =>
+    simp only [stepB] at h
+    split at h
+    · injection h with h; subst h; exact hl
+    · split at h
+      · cases h
+      · injection h with h; subst h; exact hl
 
 theorem runB_acc (l l' : Ledger) (os : List BOp) (h : runB l os = .ok l') (hl : AccInv l) : AccInv l' := by
   induction os generalizing l with
@@ -465,6 +582,7 @@ theorem step_acc (l : Ledger) (o : Op) (hl : AccInv l) : AccInv (step l o) := by
     · exact hl
   | createExt amount funds => simp only [step]; split <;> exact hl
   | fund amount => simp only [step]; split <;> exact hl
+  | createSf => simp only [step]; exact hl
   | block ops =>
     simp only [step]
     split
@@ -476,7 +594,7 @@ theorem run_acc (l : Ledger) (ops : List Op) (hl : AccInv l) : AccInv (run l ops
   | nil => exact hl
   | cons o os ih => exact ih (step l o) (step_acc l o hl)
 
-theorem empty_inv : LInv Ledger.empty := ⟨by simp [Ledger.empty], by simp [Ledger.empty, remGauges, remExts]⟩
+theorem empty_inv : LInv Ledger.empty := ⟨by simp [Ledger.empty], by simp [Ledger.empty, remGauges, remExts, remSfs]⟩
 
 theorem remActiveGauges_le (gs : List Gauge) (h : ∀ g ∈ gs, GInv g) : remActiveGauges gs ≤ remGauges gs := by
   induction gs with
